@@ -101,8 +101,10 @@ type c20Input struct {
 	// Concurrent (e2e): the server's first Read and first Write are issued at the same time by two goroutines, before the
 	// client has sent anything
 	Concurrent bool `json:"concurrent,omitempty"`
-	DeadlineMs int  `json:"deadline_ms,omitempty"`
-	Sent       int  `json:"sent,omitempty"`
+	// TLSViaCallback (e2e, tls): the TLS configuration has no Certificates; it supplies them through GetConfigForClient
+	TLSViaCallback bool `json:"tls_via_callback,omitempty"`
+	DeadlineMs     int  `json:"deadline_ms,omitempty"`
+	Sent           int  `json:"sent,omitempty"`
 }
 
 var c20LastErr error
@@ -260,7 +262,12 @@ func c20AddCase(out *emit.Out, scenario string, in c20Input) {
 				if in.ZeroFirst {
 					buf = buf[:0]
 				}
-				_, rerr = conn.Read(buf)
+				for tries := 0; tries < 6; tries++ { // a scripted deadline expiry (empty chunk) is followed by a retry
+					_, rerr = conn.Read(buf)
+					if c20Class(rerr) != "timeout" {
+						break
+					}
+				}
 				c20LastErr = rerr
 			}()
 			select {
@@ -298,7 +305,13 @@ func c20AddCase(out *emit.Out, scenario string, in c20Input) {
 		}()
 		// once routed, the first Read ends as it does on the stack given the same stream directly
 		var adapterCls, directCls string
-		if direct == "" && (code == 1 || code == 3) {
+		scripted := false // a scripted deadline expiry lands in the adapter's peek on one side and inside the stack's handshake (where it is latched) on the other
+		for _, c := range in.Chunks {
+			if len(c) == 0 {
+				scripted = true
+			}
+		}
+		if direct == "" && (code == 1 || code == 3) && !scripted {
 			adapterCls = c20Class(c20LastErr)
 			tc, sc := c20Cfgs(true, true)
 			var st net.Conn
@@ -318,7 +331,13 @@ func c20AddCase(out *emit.Out, scenario string, in c20Input) {
 						done <- fmt.Errorf("panic: %v", r)
 					}
 				}()
-				_, err := st.Read(buf)
+				var err error
+				for tries := 0; tries < 6; tries++ {
+					_, err = st.Read(buf)
+					if c20Class(err) != "timeout" {
+						break
+					}
+				}
 				done <- err
 			}()
 			select {
@@ -488,11 +507,18 @@ func c20E2E(in c20Input, adapter bool) bool {
 		}
 	}
 	tc, sc := c20Cfgs(true, true)
+	if in.TLSViaCallback {
+		inner := sc
+		sc = &tls.Config{GetConfigForClient: func(*tls.ClientHelloInfo) (*tls.Config, error) { return inner, nil }}
+	}
 	var server net.Conn
 	if adapter {
 		ch := make(chan net.Conn, 1)
 		ch <- srv
 		ln := pa.NewListener(&oneShotListener{ch}, tc, sc)
+		if ln == nil {
+			return false
+		}
 		var err error
 		if server, err = ln.Accept(); err != nil {
 			return false
@@ -703,6 +729,21 @@ func runC20(p params) error {
 			}
 		}
 	}
+	// route: the first record is not a handshake record: the major version byte still decides
+	for _, typ := range []byte{20, 21, 23, 0, 24, 0x80, 255} {
+		for _, v := range []byte{1, 3, 2} {
+			stream := append([]byte{typ, v, 1, 0, 9}, rb(9)...)
+			c20AddCase(out, "route-other-content-type", c20Input{Kind: "route", HasTLCP: true, HasTLS: true, Chunks: c20Chunk(r, stream, 5)})
+		}
+	}
+	// route: the caller's read deadline expires between two segments of the first five bytes, then the Read is retried
+	for _, v := range []byte{1, 3} {
+		stream := append([]byte{22, v, 1, 0, 9}, rb(9)...)
+		for cut := 1; cut <= 4; cut++ {
+			c20AddCase(out, "route-deadline-inside-the-header", c20Input{Kind: "route", HasTLCP: true, HasTLS: true, Chunks: [][]byte{stream[:cut], {}, stream[cut:]}})
+		}
+		c20AddCase(out, "route-deadline-inside-the-header", c20Input{Kind: "route", HasTLCP: true, HasTLS: true, Chunks: [][]byte{stream[:1], {}, stream[1:3], {}, stream[3:]}})
+	}
 	// route: early disconnect at every offset 0..6, majors 1 and 3
 	for _, v := range []byte{1, 3, 2} {
 		for cut := 0; cut <= 6; cut++ {
@@ -787,6 +828,9 @@ func runC20(p params) error {
 		c20AddCase(out, "e2e-server-speaks-first", c20Input{Kind: "e2e", Proto: proto, Seg: []int{1, 5, 2}, Payload: rb(700), SpeaksFirst: true})
 		for _, sent := range []int{0, 3, 5, 9} {
 			c20AddCase(out, "deadline-before-first-read", c20Input{Kind: "deadline", Proto: proto, DeadlineMs: 250, Sent: sent})
+		}
+		if proto == "tls" {
+			c20AddCase(out, "e2e-tls-config-by-callback", c20Input{Kind: "e2e", Proto: proto, Payload: rb(300), TLSViaCallback: true})
 		}
 		for k := 0; k < 3; k++ {
 			c20AddCase(out, "e2e-read-and-write-at-once", c20Input{Kind: "e2e", Proto: proto, Payload: rb(50 + 100*k), Concurrent: true})
